@@ -31,6 +31,7 @@ func init() { vc.Register("C05", "fault_enumeration", runC05) }
 
 type engine struct {
 	pool       chan *workdir
+	batch      int
 	c          *vc.Ctx
 	base       string
 	mode       string // quick | thorough
@@ -55,8 +56,8 @@ func plan(c *vc.Ctx) []histSpec {
 		}
 	}
 	if c.Thorough() {
-		add(400, 4096, "small", 110)
-		add(140, 65536, "page", 60)
+		add(400, 4096, "small", 100)
+		add(140, 65536, "page", 50)
 		add(48, 65536, "small", 150)
 		add(12, 65536, "big", 20)
 	} else {
@@ -119,7 +120,7 @@ func runC05(c *vc.Ctx) error {
 			defer pprof.StopCPUProfile()
 		}
 	}
-	e := &engine{c: c, mode: c.Tier, exhaustCap: 32 << 10}
+	e := &engine{c: c, mode: c.Tier, exhaustCap: 32 << 10, batch: 48}
 	e.base = scratchBase(c)
 	if e.base != c.Scratch {
 		defer os.RemoveAll(e.base)
@@ -135,11 +136,14 @@ func runC05(c *vc.Ctx) error {
 	// wal.Open and ReadAll allocate 2.1 MiB of buffers per reopen; with the
 	// default pacing the collector and the scavenger (page faults on a shared
 	// address space) serialise the workers. Collect rarely, keep pages mapped.
-	gcp := 2000
+	// Collect moderately often (the freed buffers are reused while still mapped)
+	// and stay well below the sandbox's per-process memory watchdog.
+	gcp := 150
 	if v, err := strconv.Atoi(os.Getenv("VERIF_C05_GOGC")); err == nil {
 		gcp = v
 	}
 	defer debug.SetGCPercent(debug.SetGCPercent(gcp))
+	defer debug.SetMemoryLimit(debug.SetMemoryLimit(4 << 30))
 	installHook()
 	oldSeg := wal.SegmentSizeBytes
 	defer func() { wal.SegmentSizeBytes = oldSeg }()
@@ -185,53 +189,83 @@ func runC05(c *vc.Ctx) error {
 			idx = idx[:v]
 			nPurge = 0
 		}
-		// stage 1: execute the histories (and the concurrent-purge scenarios), imaging after every call
-		works := make([][]imgWork, len(idx)+nPurge)
-		c.ParallelFor(len(idx)+nPurge, func(k int) {
-			if k >= len(idx) {
-				works[k] = e.purgeLive(1000+k-len(idx), nil)
-				return
-			}
-			works[k] = e.runHistory(specs[idx[k]])
-		})
-		var items []imgWork
-		for _, w := range works {
-			items = append(items, w...)
+		// Histories are processed in batches so that only the images of one batch
+		// are in memory; big-entry histories are spread over the batches.
+		nb := (len(idx) + e.batch - 1) / e.batch
+		if nb < 1 {
+			nb = 1
 		}
-		// stage 2: fault enumeration, one image per work item, most expensive first
-		sort.SliceStable(items, func(a, b int) bool { return items[a].cost > items[b].cost })
-		var cmu sync.Mutex
-		var conts []contCand
-		c.ParallelFor(len(items), func(k int) {
-			w := items[k]
-			h := e.newHctx(w.hid, int64(w.idx)+1, w.depth, w.label, w.scenario)
-			defer e.release(h)
-			h.viol = int(atomic.LoadInt32(&w.r.viol))
-			h.evalImage(w)
-			atomic.StoreInt32(&w.r.viol, int32(h.viol))
-			if len(h.conts) > 0 {
-				cmu.Lock()
-				conts = append(conts, h.conts...)
-				cmu.Unlock()
+		nItems, nConts := 0, 0
+		for bi := 0; bi < nb; bi++ {
+			var bidx []int
+			for i := bi; i < len(idx); i += nb {
+				bidx = append(bidx, idx[i])
 			}
-		})
-		// stage 3: continue after a crash, crash again
-		conts = selectConts(conts, c.Pick(6, 14))
-		c.ParallelFor(len(conts), func(k int) {
-			cc := conts[k]
-			h := e.newHctx(cc.hid, int64(k)+100000, 0, "", "")
-			defer e.release(h)
-			if h.stop() {
-				return
+			np := 0
+			if bi == 0 {
+				np = nPurge
 			}
-			h.continuation(cc, k)
-		})
-		fmt.Printf("C05: segment size %d: %d histories, %d images, %d continuations, %d reopen executions so far, %.1fs\n", seg, len(idx), len(items), len(conts), c.Ev.Evals(), time.Since(t0).Seconds())
+			ni, nc := e.runBatch(specs, bidx, np)
+			nItems += ni
+			nConts += nc
+			if c.Violations() >= 30 {
+				break
+			}
+		}
+		fmt.Printf("C05: segment size %d: %d histories, %d images, %d continuations, %d reopen executions so far, %.1fs\n", seg, len(idx), nItems, nConts, c.Ev.Evals(), time.Since(t0).Seconds())
 	}
 	c.Ev.Set("exhaustive_tail_offsets", c.Thorough() && c.Ev.Counter("regions_sampled_below_cap") == 0 && c.Ev.Counter("regions_all_offsets") > 0)
-	c.Ev.Set("exhaustive_tail_offsets_scope", fmt.Sprintf("thorough tier: every byte offset of the unsynced region is a truncation point for every call of every third history and a quarter of the calls of the other histories (regions.thorough; regions of more than %d bytes, i.e. entries of 128 KiB / 1 MiB, are sampled); elsewhere and in the quick tier: every offset of the last two records + 64 sampled (regions.quick) or frame/sector boundaries +-1 and 24 sampled offsets (regions.light)", e.exhaustCap))
+	c.Ev.Set("exhaustive_tail_offsets_scope", fmt.Sprintf("thorough tier: every byte offset of the unsynced region is a truncation point for every call of every eighth history and 5%% of the calls of the other histories (regions.thorough; regions of more than %d bytes, i.e. entries of 128 KiB / 1 MiB, are sampled); elsewhere and in the quick tier: every offset of the last two records + 64 sampled (regions.quick) or frame/sector boundaries +-1 and 24 sampled offsets (regions.light)", e.exhaustCap))
 	c.Ev.Set("scratch_on_shm", e.base != c.Scratch)
 	return nil
+}
+
+// runBatch executes a batch of histories (plus np concurrent-purge scenarios)
+// and runs the fault enumeration over their images.
+func (e *engine) runBatch(specs []histSpec, idx []int, np int) (int, int) {
+	c := e.c
+	// stage 1: execute the histories (and the concurrent-purge scenarios), imaging after every call
+	works := make([][]imgWork, len(idx)+np)
+	c.ParallelFor(len(idx)+np, func(k int) {
+		if k >= len(idx) {
+			works[k] = e.purgeLive(1000+k-len(idx), nil)
+			return
+		}
+		works[k] = e.runHistory(specs[idx[k]])
+	})
+	var items []imgWork
+	for _, w := range works {
+		items = append(items, w...)
+	}
+	// stage 2: fault enumeration, one image per work item, most expensive first
+	sort.SliceStable(items, func(a, b int) bool { return items[a].cost > items[b].cost })
+	var cmu sync.Mutex
+	var conts []contCand
+	c.ParallelFor(len(items), func(k int) {
+		w := items[k]
+		h := e.newHctx(w.hid, int64(w.idx)+1, w.depth, w.label, w.scenario)
+		defer e.release(h)
+		h.viol = int(atomic.LoadInt32(&w.r.viol))
+		h.evalImage(w)
+		atomic.StoreInt32(&w.r.viol, int32(h.viol))
+		if len(h.conts) > 0 {
+			cmu.Lock()
+			conts = append(conts, h.conts...)
+			cmu.Unlock()
+		}
+	})
+	// stage 3: continue after a crash, crash again
+	conts = selectConts(conts, c.Pick(6, 14))
+	c.ParallelFor(len(conts), func(k int) {
+		cc := conts[k]
+		h := e.newHctx(cc.hid, int64(k)+100000, 0, "", "")
+		defer e.release(h)
+		if h.stop() {
+			return
+		}
+		h.continuation(cc, k)
+	})
+	return len(items), len(conts)
 }
 
 func (e *engine) merge(st *stats) {
